@@ -73,8 +73,8 @@ pub fn parse_v2_header(i: &[u8]) -> IResult<&[u8], HeaderV2> {
     // rejected family would have short-circuited via `?` above, so on this
     // success path the high nibble is AF_UNSPEC/INET/INET6.
     debug_assert!(
-        matches!((family >> 4) & 0x0f, 0x00..=0x02),
-        "accepted family nibble must be AF_UNSPEC, AF_INET, or AF_INET6"
+        matches!((family >> 4) & 0x0f, 0x00..=0x03),
+        "accepted family nibble must be AF_UNSPEC, AF_INET, AF_INET6 or AF_UNIX"
     );
 
     Ok((
@@ -92,6 +92,7 @@ fn parse_addr_v2(family: u8) -> impl Fn(&[u8]) -> IResult<&[u8], ProxyAddr> {
         0x00 => Ok((i, ProxyAddr::AfUnspec)),
         0x01 => parse_ipv4_on_v2(i),
         0x02 => parse_ipv6_on_v2(i),
+        0x03 => parse_unix_on_v2(i),
         _ => Err(Err::Error(Error::from_error_kind(i, ErrorKind::Switch))),
     }
 }
@@ -153,6 +154,17 @@ fn parse_ipv6_on_v2(i: &[u8]) -> IResult<&[u8], ProxyAddr> {
             dst_addr: SocketAddrV6::new(slice_to_ipv6(dest_ip), dest_port, 0, 0),
         },
     ))
+}
+
+fn parse_unix_on_v2(i: &[u8]) -> IResult<&[u8], ProxyAddr> {
+    let (i, src) = take(108u8)(i)?;
+    let (i, dst) = take(108u8)(i)?;
+    let mut src_addr = [0u8; 108];
+    let mut dst_addr = [0u8; 108];
+    src_addr.copy_from_slice(src);
+    dst_addr.copy_from_slice(dst);
+
+    Ok((i, ProxyAddr::UnixAddr { src_addr, dst_addr }))
 }
 
 // assumes the slice has 16 bytes
